@@ -227,7 +227,7 @@ func newSession(c *Case) *session {
 		opt.SourcecodeFilesystem = fstest.MapFS{"m/main.go": &fstest.MapFile{Data: []byte(c.Src)}}
 	}
 	s.i = interp.New(opt)
-	s.armed.Store(c.Entry != "preload")
+	s.armed.Store(c.Entry != "preload" && c.Entry != "execute-warm")
 	if err := s.i.Use(stdlib.Symbols); err != nil {
 		panic(err)
 	}
@@ -247,7 +247,17 @@ func (s *session) start(ctx context.Context, c *Case) chan error {
 			}
 		}()
 		switch c.Entry {
-		case "execute":
+		case "execute", "execute-warm":
+			if c.Entry == "execute-warm" {
+				// an earlier, unrelated evaluation with a context has switched the
+				// interpreter to cancellable channel operations before Compile
+				s.armed.Store(false)
+				if _, err := s.i.EvalWithContext(context.Background(), "var warm = 1"); err != nil {
+					res <- fmt.Errorf("warm: %w", err)
+					return
+				}
+				s.armed.Store(true)
+			}
 			prog, err := s.i.Compile(c.Src)
 			if err != nil {
 				res <- fmt.Errorf("compile: %w", err)
@@ -442,8 +452,10 @@ func genCase(t *rapid.T, perCase int, skip map[string]bool) *Case {
 	c.Src, c.MaxG = tm.gen(t)
 	c.Entry = []string{"eval", "execute", "evalpath", "preload"}[rapid.IntRange(0, 3).Draw(t, "entry")]
 	if c.Entry == "execute" && skip["execute-precompiled-chan"] && (tm.name == "pipeline" || tm.name == "blocked-goroutines" || tm.name == "goroutine-workers") {
-		// known finding: channel operations compiled before ExecuteWithContext are not cancellable
-		c.Entry = "eval"
+		// known finding: channel operations compiled before the first *WithContext
+		// call are not cancellable: the program is compiled after an unrelated
+		// evaluation with a context
+		c.Entry = "execute-warm"
 	}
 	// the cancellation points are fractions of the operation count, fixed
 	// once the uncancelled run is known
@@ -526,7 +538,7 @@ func init() {
 	vf.Register(&vf.Check{
 		ID:    "C09",
 		Level: "fault_enumeration",
-		Rule:  "case = a program from a template family (busy loop, nested calls, recursion, closure ping-pong, goroutine workers with WaitGroup, channel pipeline with range/close, goroutines parked in each blocking construct {recv, send, select recv/send, range, recv-ok}, package initialisers + init + main) x entry point {EvalWithContext, ExecuteWithContext, EvalPathWithContext} x cancellation points k chosen among the N operations of an uncancelled run; the step hook parks the goroutine about to execute operation k, the harness cancels, waits for the call to return, releases, and checks: the call returns context.Canceled, at most one host side effect per interpreted goroutine happens after the return, interpreted operations stop, goroutines exit; non-trivial = k falls in a program with callee frames, several goroutines or package initialisation; distinct by (program, entry, k)",
+		Rule:  "case = a program from a template family (busy loop, nested calls, recursion, closure ping-pong, goroutine workers with WaitGroup, channel pipeline with range/close, goroutines parked in each blocking construct {recv, send, select recv/send, range, recv-ok}, package initialisers + init + main) x entry point {EvalWithContext, ExecuteWithContext (for channel templates: compiled after an unrelated EvalWithContext, see the recorded finding execute-precompiled-chan), EvalPathWithContext, declarations preloaded by a non-cancellable evaluation} x cancellation points k chosen among the N operations of an uncancelled run; the step hook parks the goroutine about to execute operation k, the harness cancels, waits for the call to return, releases, and checks: the call returns context.Canceled, at most one host side effect per interpreted goroutine happens after the return, interpreted operations stop, goroutines exit; non-trivial = k falls in a program with callee frames, several goroutines or package initialisation; distinct by (program, entry, k)",
 		Assumptions: []string{
 			"YAEGI_FAST_CHAN is unset (cancellable channel mode)",
 			"the operation count of goroutine programs is schedule-dependent: a point beyond the end of a run is counted, not judged",
